@@ -24,6 +24,9 @@ def check(run):
     r2, r3 = "C01-order", "C01-cells"
     run.rule(r2, "is_more_specific is the documented per-position decision table over {equal, derived, base, unrelated}", floor=3)
     run.rule(r3, "dispatch cell = sole best definition / not_implemented when none / ambiguous when several", floor=12)
+    r5 = "C01-table"
+    run.rule(r5, "geometry of the dispatch table: strides are running products of group counts, cells are pushed row-major with dimension 0 fastest, v-table entries carry the "
+             "group number in iteration order, install_gv stores definition pointer / table base + group / group number", floor=12)
     r4 = "C01-applicable"
     run.rule(r4, "a definition applies to a class iff the class is in the covariant set (class + all derived) of the definition's parameter class at that position", floor=6)
     for nd in variants:
@@ -31,6 +34,7 @@ def check(run):
         crules.order_rules(run, r2, None, ast)
         crules.cells_rules(run, r3, None, None, ast)
         crules.applicable_rules(run, r4, ast)
+        crules.table_rules(run, r5, ast)
     run.assumptions += ["v-table pointer acquisition (Policy::dynamic_vptr, virtual_ptr::_vptr) is an opaque leaf here; its content is decided by C09 / C15",
                         "the tables themselves (which definition sits in which cell) are values computed by update: not decided"]
     return run.finish(level="other", explanation="Symbolic summary (LLVM IR after mem2reg, library calls substituted) of the function pointer that "
